@@ -282,3 +282,84 @@ add(Contract(
     # the nested packet's (scratch) slots and the buffer
     modifies=["slot(asref(slot(pkt, self.field_name), 'Packet'), *)"] + FRAG_MOD, allocates=True,
     returns='ref:Fragments'))
+
+# ---------------------------------------------------------------- init of the leaf kinds (C19)
+# after init the field's slot holds the keyword argument if given, else the declared default
+_init_posts = [
+    "hasslot(packet, self.field_name)",
+    "implies(self.field_name in defaults, same(slot(packet, self.field_name), defaults[self.field_name]))",
+]
+add(Contract(
+    'field:Int.init',
+    params={'self': 'ref:Int', 'packet': 'ref:Packet', 'defaults': 'conf'},
+    ensures=_init_posts + [
+        "implies(not (self.field_name in defaults), same(slot(packet, self.field_name), self.default))"],
+    modifies=['slot(packet, self.field_name)']))
+add(Contract(
+    'field:Data.init',
+    params={'self': 'ref:Data', 'packet': 'ref:Packet', 'defaults': 'conf'},
+    ensures=_init_posts + [
+        "implies(not (self.field_name in defaults), same(slot(packet, self.field_name), self.default))"],
+    modifies=['slot(packet, self.field_name)']))
+add(Contract(
+    'field:Field.init',
+    params={'self': 'ref:Field', 'packet': 'ref:Packet', 'defaults': 'conf'},
+    ensures=_init_posts + [
+        # immutable defaults are used as they are, anything else is deep-copied: a fresh object
+        # (never shared with the declaration or with another packet)
+        "implies(not (self.field_name in defaults) and (isint(self.default) or isnone(self.default) or isbytes(self.default)),"
+        "        same(slot(packet, self.field_name), self.default))",
+        "implies(not (self.field_name in defaults) and not (isint(self.default) or isnone(self.default)"
+        "        or isbytes(self.default) or isstr(self.default)),"
+        "        fresh_since(slot(packet, self.field_name)))",
+        # ... deeply: a default list shares no mutable element with the declaration either
+        "implies(not (self.field_name in defaults) and islist(self.default),"
+        "        islist(slot(packet, self.field_name)) and forall(0, len(aslist(slot(packet, self.field_name))), lambda j:"
+        "           isprim(aslist(slot(packet, self.field_name))[j]) or fresh_since(aslist(slot(packet, self.field_name))[j]),"
+        "           pat=lambda j: aslist(slot(packet, self.field_name))[j]))",
+    ],
+    modifies=['slot(packet, self.field_name)'], allocates=True))
+
+# ---------------------------------------------------------------- constructors that compute defaults (C19, C06)
+add(Contract(
+    'field:Field.__init__',
+    params={'self': 'ref:Field'},
+    ensures=["not self.is_fixed", "isnone(self.struct_code)", "self.is_bigendian",
+             "isnone(self.move_arg) and isnone(self.reference) and isnone(self.is_alignment)",
+             "isnone(self.descriptor) and isnone(self.descriptor_name)"],
+    modifies=['self.is_fixed', 'self.struct_code', 'self.is_bigendian', 'self.move_arg', 'self.reference',
+              'self.is_alignment', 'self.descriptor', 'self.descriptor_name']))
+
+add(Contract(
+    'field:Data.__init__',
+    params={'self': 'ref:Data', 'byte_count': 'dyn', 'until_marker': 'dyn', 'include_delimiter': 'bool',
+            'consume_delimiter': 'bool', 'default': 'dyn'},
+    defaults={'byte_count': 'None', 'until_marker': 'None', 'include_delimiter': 'False',
+              'consume_delimiter': 'True', 'default': "b''"},
+    ensures=[
+        "isbytes(default)",
+        # NUL bytes of the declared size for fixed byte strings without an explicit default, else the given one
+        "implies(len(bytesval(default)) == 0 and isint(byte_count),"
+        "        isbytes(self.default) and len(bytesval(self.default)) == max(intval(byte_count), 0)"
+        "        and forall(0, len(bytesval(self.default)), lambda i: bytesval(self.default)[i] == 0))",
+        "implies(not (len(bytesval(default)) == 0 and isint(byte_count)), same(self.default, default))",
+        # exactly one of size / delimiter; what pack re-emits after the value
+        "isnone(byte_count) != isnone(until_marker)",
+        "same(self.byte_count, byte_count) and same(self.until_marker, until_marker)",
+        "self.include_delimiter == include_delimiter and self.consume_delimiter == consume_delimiter",
+        "self.delimiter_to_be_included == ite(isbytes(until_marker) and not include_delimiter,"
+        "                                     bytesval(until_marker), b'')",
+        "implies(include_delimiter, consume_delimiter)",
+        "self.is_fixed == isint(byte_count)",
+        "isnone(until_marker) or isbytes(until_marker) or isregex(until_marker)",
+    ],
+    raises={'ValueError': ["not isbytes(default) or not (isnone(until_marker) or isbytes(until_marker) or isregex(until_marker))"
+                           " or (isregex(until_marker) and True)"],
+            'AssertionError': ["(isnone(byte_count) == isnone(until_marker)) or (include_delimiter and not consume_delimiter)"]},
+    modifies=['self.*']))
+
+add(Contract(
+    'role:FIELD.init', role=True,
+    params={'f': 'ref:Field', 'packet': 'ref:Packet', 'defaults': 'conf'},
+    ensures=[], raises={'OtherException*': []},
+    modifies=['slot(packet, in:owns(f, n))'], allocates=True))
